@@ -89,7 +89,7 @@ def showOptBool : Option Bool → String
 def nfaEq : P String := do
   let a ← nfaX
   let b ← nfaX
-  let pick₁ := HK.nxPick (S := List Int ⊕ List Int) fun _ _ => true
+  let pick₁ := HKG.nxPick (S := List Int ⊕ List Int) fun _ _ => true
   pure (" ".intercalate [
     "impl", showEqRes (NFA.eqImpl pick₁ a b),
     "eq", showOptBool (NFA.eqOp pick₁ pick₁ a b),
